@@ -70,8 +70,40 @@ def gen_shared_head(rng):
     raise RuntimeError("no program")
 
 
+def gen_sibling(rng):
+    """a feature that is ONE output of a multi-output op while a head uses a SIBLING output directly
+    (around the feature); the order and depth of the two uses vary, so that the walk meets the
+    excluded gradient edge before or after the live one"""
+    p = ajlib.Program()
+    n = rng.choice([2, 3])
+    x = p.leaf((n, 2), [rng.randint(-3, 3) for _ in range(2 * n)], True)
+    t = p.op(rng.choice(["scale", "square"]), [x], **({"c": 2} if False else {})) if False else None
+    t = p.op("scale", [x], c=rng.choice([2, 3])) if rng.random() < 0.5 else p.op("square", [x])
+    outs = p.op("unbind", [t])
+    fi = rng.randrange(len(outs))
+    feat = outs[fi]
+    sib = rng.choice([o for o in outs if o != feat])
+    losses = []
+    for ti in range(rng.randint(1, 3)):
+        w = p.leaf((2,), [rng.randint(-2, 2) for _ in range(2)], True)
+        through = p.op("sum", [p.op("mul", [feat, w])])
+        if rng.random() < 0.5:
+            through = p.op("sum", [feat]) if rng.random() < 0.5 else through
+        if ti == 0 or rng.random() < 0.5:
+            depth = rng.randint(0, 2)
+            a = sib
+            for _ in range(depth):
+                a = p.op("square", [a])
+            around = p.op("sum", [a])
+            loss = p.op("add", [through, around] if rng.random() < 0.5 else [around, through])
+        else:
+            loss = through
+        losses.append(loss)
+    return p, [feat], losses
+
+
 def gen_case(rng, idx):
-    mode = idx % 6
+    mode = idx % 7
     if mode in (0, 1):
         outs = []
         while not outs:
@@ -87,6 +119,9 @@ def gen_case(rng, idx):
         kind, spec = "backward", {"tensors": outs}
     elif mode == 3:
         prog, feats, losses = gen_shared_head(rng)
+        kind, spec = "mtl", {"features": feats, "losses": losses, "retain": True}
+    elif mode == 6:
+        prog, feats, losses = gen_sibling(rng)
         kind, spec = "mtl", {"features": feats, "losses": losses, "retain": True}
     else:
         prog, feats, losses, tasks, shared = ajlib.gen_mtl(rng, overlap=(mode == 5))
